@@ -7,12 +7,11 @@ From Algo.C02 Require Import Model Arith ListLemmas Spec ProofsProbe ProofsPrime
 Import ListNotations.
 Local Open Scope nat_scope.
 
-(** options of the double-hashing theorems: maxLF <= 1/2, maxLF*31 >= 1, 2*minLF <= maxLF *)
+(** options of the double-hashing theorems: maxLF <= 1/2, maxLF*31 >= 1 (any minLF) *)
 Definition valid_dbl (minlf maxlf : lf) : Prop :=
   0 < lf_den maxlf /\ 0 < lf_den minlf /\
   2 * lf_num maxlf <= lf_den maxlf /\
-  lf_den maxlf <= lf_num maxlf * 31 /\
-  2 * lf_num minlf * lf_den maxlf <= lf_num maxlf * lf_den minlf.
+  lf_den maxlf <= lf_num maxlf * 31.
 
 Section Double.
   Variables K V : Type.
@@ -180,7 +179,7 @@ Section Double.
   (** [x * den < num * m] leaves room for one more entry among the m probes *)
   Lemma load_room_d : forall x m, 2 <= m -> x * lf_den maxlf < lf_num maxlf * m -> x + 1 < dH m.
   Proof.
-    intros x m Hm Hx. destruct Hvalid as (D1 & D2 & D3 & D4 & D5). unfold dH.
+    intros x m Hm Hx. destruct Hvalid as (D1 & D2 & D3 & D4). unfold dH.
     assert (2 * x < m); [|lia].
     apply Nat.mul_lt_mono_pos_r with (p := lf_den maxlf); auto.
     apply Nat.lt_le_trans with (2 * (lf_num maxlf * m)); [lia|].
@@ -290,7 +289,7 @@ Section Double.
                  (forall k', dh_fun t' k' = fupd (dh_fun t) k v k') /\ dh_n K V t' <= S (dh_n K V t).
   Proof.
     intros d shuf t k v Hd [I Ld] Pm Hg. unfold dh_load in Ld.
-    pose proof Hvalid as (D1 & D2 & D3 & D4 & D5). pose proof (d_min _ I) as M31.
+    pose proof Hvalid as (D1 & D2 & D3 & D4). pose proof (d_min _ I) as M31.
     destruct d as [|d]; [lia|]. simpl.
     assert (Dm : lf_den maxlf <= lf_num maxlf * dh_m K V t).
     { apply Nat.le_trans with (lf_num maxlf * 31); auto. apply Nat.mul_le_mono_l. lia. }
@@ -331,17 +330,86 @@ Section Double.
       split; auto. unfold dh_load. rewrite M2. nia.
   Qed.
 
+  (** the primes asked for by a growing Put while at most [N] entries are live *)
+  Definition gap_for_d (N : nat) : Prop :=
+    forall n m, n <= N -> 31 <= m -> lf_ge n m maxlf = true ->
+                exists p, 2 * m <= p < 2 * m + (2 * m + 2) /\ is_prime p = true.
+
+  Lemma dh_reinsert_gen : forall d shuf rest pre acc,
+      1 <= d -> perm_oracle shuf -> gap_for_d (length (pre ++ rest)) ->
+      NoDup (keys (pre ++ rest)) -> dh_inv acc ->
+      (forall k, dh_fun acc k = s_get pre k) ->
+      exists t', reinsert K V (dh_put K V eqb hash maxlf d shuf) rest acc = Ok t' /\ dh_inv t' /\
+                 (forall k, dh_fun t' k = s_get (pre ++ rest) k).
+  Proof.
+    intros d shuf rest. induction rest as [|[k v] rest IH]; intros pre acc Hd P Hg ND I F.
+    - exists acc. rewrite app_nil_r. split; [reflexivity|]. split; [exact I|exact F].
+    - rewrite reinsert_cons.
+      assert (NDpre : NoDup (keys pre)).
+      { unfold Spec.keys in *. rewrite map_app in ND. eapply NoDup_app_l. exact ND. }
+      assert (Hn : dh_n K V acc = length pre).
+      { apply dh_n_length; [apply I|]. eapply represents_ext; [apply represents_get; eauto|]. intros; now rewrite F. }
+      destruct (dh_put_ok d shuf acc k v Hd I P) as (t1 & H1 & I1 & F1 & _).
+      { intros G. apply (Hg (dh_n K V acc)); auto.
+        - rewrite Hn, app_length. lia.
+        - apply (d_min _ (proj1 I)). }
+      rewrite H1; simpl.
+      assert (Hk : ~ In k (keys pre)).
+      { unfold Spec.keys in *. rewrite map_app in ND. simpl in ND. apply NoDup_remove_2 in ND.
+        intros H; apply ND. apply in_or_app; auto. }
+      destruct (IH (pre ++ [(k, v)]) t1 Hd P) as (t' & H' & I' & F').
+      + now rewrite <- app_assoc.
+      + now rewrite <- app_assoc.
+      + exact I1.
+      + intros k'. rewrite F1, s_get_app_d. unfold Spec.fupd. rewrite F.
+        destruct (eqb k k') eqn:E.
+        * apply eqb_spec in E; subst k'.
+          rewrite (proj2 (s_get_None K V eqb eqb_spec pre k) Hk).
+          unfold Spec.s_get; simpl. now rewrite (proj2 (eqb_spec k k) eq_refl).
+        * destruct (s_get pre k'); auto. unfold Spec.s_get; simpl. now rewrite E.
+      + exists t'. rewrite <- app_assoc in F'. simpl in F'. split; [exact H'|]. split; [exact I'|exact F'].
+  Qed.
+
+  Lemma dh_resize_gen : forall d shuf t m',
+      1 <= d -> dh_inv0 t -> perm_oracle shuf -> 31 <= m' -> gap_for_d (dh_n K V t) ->
+      (exists p, m' <= p < m' + (m' + 2) /\ is_prime p = true) ->
+      exists t', dh_resize_with K V (dh_put K V eqb hash maxlf d shuf) shuf t m' = Ok t' /\ dh_inv t' /\
+                 (forall k, dh_fun t' k = dh_fun t k) /\ dh_n K V t' = dh_n K V t.
+  Proof.
+    intros d shuf t m' Hd I Pm H31 Hg (p0 & Hp0 & Pp0). unfold dh_resize_with, dhMinM.
+    destruct Hvalid as (D1 & D2 & D3 & D4).
+    destruct (Nat.ltb_spec m' 31); [lia|].
+    unfold smallest_prime_ge. destruct (next_prime_total (m' + 2) m' p0 Hp0 Pp0) as (p & Hnp).
+    rewrite Hnp. cbn [bind]. apply next_prime_spec in Hnp. destruct Hnp as [Pp Rp].
+    destruct (dh_new_ok p Pp ltac:(lia)) as (nt & Hn & In & Fn & Mn & Nn & Tn). rewrite Hn; cbn [bind].
+    pose proof (dh_represents t shuf I Pm) as R.
+    pose proof (dh_n_length t _ I R) as Hlen.
+    destruct (dh_reinsert_gen d shuf (dh_all K V shuf t) [] nt Hd Pm) as (t' & H' & I' & F').
+    - simpl. now rewrite <- Hlen.
+    - simpl. apply R.
+    - split; auto. unfold dh_load. rewrite Nn, Tn, Mn. simpl. lia.
+    - intros k. rewrite Fn. reflexivity.
+    - rewrite H'; cbn [bind]. simpl in F'.
+      assert (Ft : forall k, dh_fun t' k = dh_fun t k).
+      { intros k. rewrite F'. symmetry. apply represents_fun; auto. }
+      set (t2 := {| dh_e := dh_e K V t'; dh_m := dh_m K V t'; dh_p := dh_p K V t'; dh_n := dh_n K V t'; dh_t := dh_t K V t' |}).
+      assert (E2 : t2 = t') by (destruct t'; reflexivity).
+      exists t2. rewrite E2. split; [reflexivity|]. split; [exact I'|]. split; [exact Ft|].
+      rewrite (dh_n_length t' (dh_all K V shuf t) (proj1 I')); [lia|].
+      eapply represents_ext; [exact R|]. intros; now rewrite Ft.
+  Qed.
+
   Lemma frem_absent_d : forall (f : K -> option V) k k', f k = None -> frem f k k' = f k'.
   Proof.
     intros f k k' H. unfold Spec.frem. destruct (eqb k k') eqn:E; auto. apply eqb_spec in E. now subst.
   Qed.
 
-  Lemma dh_delete_ok : forall d shuf t k, 1 <= d -> dh_inv t -> perm_oracle shuf ->
+  Lemma dh_delete_ok : forall d shuf t k, 1 <= d -> dh_inv t -> perm_oracle shuf -> gap_for_d (dh_n K V t) ->
       exists t', dh_delete K V eqb hash minlf maxlf d shuf t k = Ok (t', dh_fun t k) /\ dh_inv t' /\
                  (forall k', dh_fun t' k' = frem (dh_fun t) k k') /\ dh_n K V t' <= dh_n K V t.
   Proof.
-    intros d shuf t k Hd Hinv Pm. pose proof Hinv as [I Ld]. unfold dh_load in Ld.
-    destruct Hvalid as (D1 & D2 & D3 & D4 & D5). pose proof (d_min _ I) as M31.
+    intros d shuf t k Hd Hinv Pm Hgf. pose proof Hinv as [I Ld]. unfold dh_load in Ld.
+    destruct Hvalid as (D1 & D2 & D3 & D4). pose proof (d_min _ I) as M31.
     set (m := dh_m K V t) in *. set (es := dh_e K V t) in *.
     pose proof (d_sinv _ I) as SI. fold m es in SI.
     destruct (lookup_any K V eqb eqb_spec m (didx m) (dH m) (d_lt t I) (d_window t I) (dH_le _) es k SI)
@@ -380,31 +448,13 @@ Section Double.
           destruct (Nat.ltb_spec (m / 2) 31) as [Hsmall|Hbig].
           -- unfold dh_resize_with, dhMinM. destruct (Nat.ltb_spec (m / 2) 31); [|lia]. cbn [bind].
              exists t1. split; [reflexivity|]. split; [split; auto|split; [exact F1|simpl; lia]].
-          -- apply lf_le_true in G.
-             assert (Hm2 : m <= 2 * (m / 2) + 1).
+          -- assert (Hm2 : m <= 2 * (m / 2) + 1).
              { pose proof (Nat.div_mod m 2 ltac:(lia)). pose proof (Nat.mod_upper_bound m 2 ltac:(lia)). lia. }
-             assert (Hpre2 : 2 * (pred (dh_n K V t) * lf_den maxlf) <= lf_num maxlf * m).
-             { apply Nat.mul_le_mono_pos_r with (p := lf_den minlf); auto.
-               apply Nat.le_trans with (2 * lf_num minlf * lf_den maxlf * m).
-               - replace (2 * (pred (dh_n K V t) * lf_den maxlf) * lf_den minlf)
-                   with (2 * lf_den maxlf * (pred (dh_n K V t) * lf_den minlf)) by lia.
-                 replace (2 * lf_num minlf * lf_den maxlf * m) with (2 * lf_den maxlf * (lf_num minlf * m)) by lia.
-                 apply Nat.mul_le_mono_l. exact G.
-               - replace (lf_num maxlf * m * lf_den minlf) with (lf_num maxlf * lf_den minlf * m) by lia.
-                 apply Nat.mul_le_mono_r. exact D5. }
-             assert (Lp : forall p, m / 2 <= p -> is_prime p = true ->
-                                    pred (dh_n K V t) * lf_den maxlf < lf_num maxlf * p + lf_den maxlf).
-             { intros p0 Hp0 _. set (X := pred (dh_n K V t) * lf_den maxlf) in *.
-               assert (A : lf_num maxlf * m <= lf_num maxlf * (2 * (m / 2) + 1)) by (apply Nat.mul_le_mono_l; lia).
-               assert (Bq : lf_num maxlf * (m / 2) <= lf_num maxlf * p0) by (apply Nat.mul_le_mono_l; lia).
-               lia. }
-             destruct (dh_resize_ok d shuf t1 (m / 2) I1 Pm Hbig) as (t2 & H2 & I2 & F2 & M2 & N2 & T2).
+             destruct (dh_resize_gen d shuf t1 (m / 2) Hd I1 Pm Hbig) as (t2 & H2 & I2 & F2 & N2).
+             { intros n0 m0 Hn0. apply Hgf. simpl in Hn0. lia. }
              { exists m. split; [|apply (d_prime _ I)]. assert (m / 2 <= m) by (apply Nat.div_le_upper_bound; lia). lia. }
-             { exact Lp. }
-             rewrite H2; cbn [bind]. exists t2. split; [reflexivity|]. split.
-             ++ split; auto. unfold dh_load. rewrite N2, T2. change (dh_n K V t1) with (pred (dh_n K V t)). rewrite Nat.add_0_r.
-                apply Lp; [exact M2|apply (d_prime _ I2)].
-             ++ split; [intros k'; now rewrite F2, F1|]. rewrite N2. simpl. lia.
+             rewrite H2; cbn [bind]. exists t2. split; [reflexivity|]. split; [exact I2|].
+             split; [intros k'; now rewrite F2, F1|]. rewrite N2. simpl. lia.
         * exists t1. split; [reflexivity|]. split; [split; auto|split; [exact F1|simpl; lia]].
     - destruct Ho as [Hemp Habs].
       assert (Ef : dh_fun t k = None) by (unfold dh_fun; fold es; eapply key_absent_d; eauto).
@@ -414,7 +464,7 @@ Section Double.
   Lemma dh_delete_all_ok : forall t, dh_inv t ->
       dh_inv (dh_delete_all K V t) /\ forall k, dh_fun (dh_delete_all K V t) k = None.
   Proof.
-    intros t [I Ld]. destruct Hvalid as (D1 & D2 & D3 & D4 & D5). pose proof (d_min _ I) as M31.
+    intros t [I Ld]. destruct Hvalid as (D1 & D2 & D3 & D4). pose proof (d_min _ I) as M31.
     unfold dh_delete_all. split; [split|].
     - constructor; simpl; try apply I.
       + apply sinv_empty. unfold dH. lia.
@@ -454,7 +504,7 @@ Section DoubleTop.
       - destruct (Nat.eqb_spec cap 0); [lia|auto]. }
     destruct Hc as (H31 & Hp).
     destruct (dh_new_ok K V eqb hash eqb_spec _ Hp H31) as (t0 & H0 & I0 & F0 & M0 & N0 & T0).
-    pose proof Hvalid as (D1 & D2 & D3 & D4 & D5).
+    pose proof Hvalid as (D1 & D2 & D3 & D4).
     assert (Hnum : 0 < lf_num maxlf) by nia.
     apply run_refines_bounded with (L := L) (Inv := du_InvI) (Fun := du_Fun) (t0 := TDH K V t0); auto.
     - intros i [| | |s] I; try contradiction. destruct I as [I Hn]. split; auto.
@@ -471,9 +521,15 @@ Section DoubleTop.
         apply Nat.mul_le_mono_l. apply Nat.mul_le_mono_r. lia. }
       exists (TDH K V t'). rewrite H'. simpl. split; auto. split; auto. split; auto. lia.
     - intros i [| | |s] k I; try contradiction. simpl. apply dh_get_ok; auto. apply I.
-    - intros i shuf [| | |s] k I P; try contradiction. destruct I as [I Hn]. unfold delete.
+    - intros i shuf [| | |s] k Hi I P; try contradiction. destruct I as [I Hn]. unfold delete.
       destruct (dh_delete_ok K V eqb eqv hash minlf maxlf eqb_spec Hvalid depth shuf s k) as (t' & H' & I' & F' & N'); auto.
       { unfold depth; lia. }
+      { intros n0 m0 Hn0 M0' G. apply lf_ge_true in G. apply HgapB. split; [lia|].
+        apply Nat.mul_le_mono_pos_l with (p := lf_num maxlf); auto.
+        apply Nat.le_trans with (2 * lf_den maxlf * L); [|exact HL].
+        apply Nat.le_trans with (2 * (n0 * lf_den maxlf)); [lia|].
+        replace (2 * lf_den maxlf * L) with (2 * (L * lf_den maxlf)) by lia.
+        apply Nat.mul_le_mono_l. apply Nat.mul_le_mono_r. lia. }
       exists (TDH K V t'). rewrite H'. simpl. split; auto. split; auto. split; auto. lia.
     - intros i [| | |s] I; try contradiction. destruct I as [I Hn]. simpl.
       destruct (dh_delete_all_ok K V eqb hash minlf maxlf eqb_spec Hvalid s I) as [A Bq]. split; auto. split; auto. simpl. lia.
@@ -491,5 +547,5 @@ Proof.
   intros K V eqb eqv hash minlf maxlf He Hv Hg cap orc ops Hc PO.
   apply (double_refines_gen K V eqb eqv hash minlf maxlf He Hv (2 * lf_den maxlf * length ops) (length ops)); auto.
   - intros n Hn. apply Hg. lia.
-  - destruct Hv as (D1 & D2 & D3 & D4 & D5). assert (0 < lf_num maxlf) by nia. nia.
+  - destruct Hv as (D1 & D2 & D3 & D4). assert (0 < lf_num maxlf) by nia. nia.
 Qed.
